@@ -180,7 +180,7 @@ func Scribble(rs []*result.CertRevocationResult) {
 
 // IsHTTPKind reports whether a URL kind is served over the simulated network.
 func IsHTTPKind(k string) bool {
-	return k == "http" || k == "HTTP" || k == "httpq" || k == "httpc" || k == "same" || k == "httph" || k == "httpoq"
+	return k == "http" || k == "HTTP" || k == "Http" || k == "httpq" || k == "httpc" || k == "same" || k == "httph" || k == "httpoq"
 }
 
 // Outcome is everything observed from one execution.
